@@ -626,6 +626,10 @@ func (d *driver) setup() {
 		opts = append(opts, gcc.SendSideBWEPacer(gcc.NewNoOpPacer()))
 	}
 	if d.pacer != nil {
+		if d.c.R.Chance(0.3) {
+			d.pacer.failClose = true
+			d.c.Add("cases_whose_pacer_close_returns_an_error", 1)
+		}
 		opts = append(opts, gcc.SendSideBWEPacer(d.pacer))
 	}
 	d.sim = newNetSim(s, d.c.R.Fork(), d.start)
